@@ -40,7 +40,7 @@ pub assume_specification<T, A>[ ::std::vec::Vec::<T, A>::into_boxed_slice ](v: :
     A: ::std::alloc::Allocator,
 
     ensures
-        r@.len() == v@.len(),
+        r@ == v@,
 ;
 
 pub assume_specification<T: ?Sized, A: ::std::alloc::Allocator>[ <Arc<T, A> as From<::std::boxed::Box<T, A>>>::from ](v: ::std::boxed::Box<T, A>) -> (r: Arc<T, A>)
